@@ -87,7 +87,14 @@ pub fn gen_c14_case(g: &mut G) -> Value {
             which.push("patch");
         }
         if g.chance(1, 2) {
-            s.convert.push(Convert { schema: conv_schema(), ty: CONV.into(), impls: vec!["Display".into(), "FromStr".into(), "Default".into()] });
+            // the conversion schema itself may carry annotations (they play no part in matching)
+            let mut cs = conv_schema();
+            match g.below(3) {
+                0 => cs["description"] = json!("the converted integer"),
+                1 => cs["title"] = json!("Conv Title"),
+                _ => {}
+            }
+            s.convert.push(Convert { schema: cs, ty: CONV.into(), impls: vec!["Display".into(), "FromStr".into(), "Default".into()] });
             which.push("convert");
         }
         if g.chance(1, 3) && !s.patch.contains_key("Target") {
@@ -353,7 +360,14 @@ impl Property for C14 {
             && doc.pointer("/definitions/MapHolder/properties").and_then(|p| p.as_object()).map(|p| p.len() == 3).unwrap_or(false)
             && (kind != "struct" || doc.pointer("/definitions/Merged/allOf").and_then(|a| a.as_array()).map(|a| a.len() == 2).unwrap_or(false))
             && case.settings.replace.values().all(|r| r.ty == REPL)
-            && case.settings.convert.iter().all(|c| c.schema == conv_schema() && c.ty == CONV)
+            && case.settings.convert.iter().all(|c| {
+                let mut bare = c.schema.clone();
+                if let Some(o) = bare.as_object_mut() {
+                    o.remove("description");
+                    o.remove("title");
+                }
+                bare == conv_schema() && c.ty == CONV
+            })
             && case.settings.patch.values().all(|p| p.rename.as_deref() == Some("RenamedTarget") && p.derives == vec!["PartialEq".to_string()])
             && case.settings.map_type.as_ref().map(|m| MAP_TYPES.contains(&m.as_str())).unwrap_or(true)
             && case.settings.derives.iter().all(|d| d == "PartialEq")
